@@ -32,7 +32,7 @@ ASSUMPTIONS = ["float64 CPU", "sp methods (MNDO/AM1/PM3/PM6_SP); the d-orbital P
                "start densities carry no weight on padding orbitals and the same perturbation in both spin channels (valid inputs only)",
                "a call that raises is a loud, bounded return: counted (calls_raised), not judged here",
                "UHF per-spin commutator/reproduction constants carry the calibrated factor S_UHF = 5 (see module comment)"]
-REQUIRED_MONITORS = ["sp2_calls_uneven_sweeps", "sp2_rows_vs_alone_compared", "finite_T_rows_checked",
+REQUIRED_MONITORS = ["unrolled_backward_path_calls", "sp2_calls_uneven_sweeps", "sp2_rows_vs_alone_compared", "finite_T_rows_checked",
                      "rows_checked_converged", "rows_flagged_notconverged", "get_error_calls", "loop_backedges",
                      "sp2_calls", "ksa_returns"]
 CASE_TIMEOUT = 120.0
@@ -225,6 +225,22 @@ def gen_cases(tier, seed):
         cases.append({"kind": "backward", "mols": [_mk_mol(g, name, 1.0)], "pad": 0, "method": "AM1",
                       "conv": _pick(g, [[1], [2], [0, 0.3]]), "sp2": None, "eps": 1e-8, "start": "default", "cap": None,
                       "uhf": False, "backward": 1})
+    # scf_backward=2 (direct back-propagation): scf_loop calls scf_forward0/1/2 with backward=True, i.e. the separate
+    # out-of-place `if backward:` update branches of all three solvers, with autograd enabled
+    b2 = [([0, a], nm) for a, nm in [(0.0, "H2O"), (0.05, "CH2O"), (0.1, "NH3"), (0.3, "HCN"), (0.7, "CH4")]] \
+        + [([1], "CH2O"), ([2], "H2O"), ([0, 0.0], "HF+CH3OH"), ([0, 0.1], "H2O+C2H4+HCN"), ([1], "NH3+CO"), ([2], "CH4+H2O+HCN")]
+    if tier == "thorough":
+        nm_pool = ["H2O", "CH2O", "NH3", "HCN", "CH4", "CO", "C2H4", "CH3OH", "HF", "N2", "H2O+C2H4", "CH4+HCN+H2O", "CO+NH3"]
+        for a in [0.0, 0.05, 0.1, 0.2, 0.3, 0.5, 0.7]:
+            for _ in range(3):
+                b2.append(([0, a], _pick(g, nm_pool)))
+        for cv in ([1], [2]):
+            for _ in range(8):
+                b2.append((cv, _pick(g, nm_pool)))
+    for j, (cv, label) in enumerate(b2):
+        cases.append({"kind": "backward2", "mols": [_mk_mol(g, n, 1.0) for n in label.split("+")], "pad": int("+" in label and j % 2),
+                      "method": ["AM1", "PM3", "MNDO"][j % 3], "conv": cv, "sp2": None, "eps": float(_pick(g, [1e-6, 1e-8, 1e-8])),
+                      "start": "default", "cap": None, "uhf": False, "backward": 2})
     for i in range(n_lattice):
         method = METHODS[i % 4] if g.random() < 0.7 else "AM1"
         uhf = (i % 6 == 5)
@@ -348,7 +364,8 @@ def run_case(case):
            "flag_pessimistic_rows": 0, "repro_ineligible_small_gap": 0, "calls_raised": 0, "r1_rebuilds": 0,
            "backward_fixed_point_calls": 0, "flag_rows_checked": 0, "iteration_counts_checked": 0,
            "returned_vs_judged_rows": 0, "sp2_calls_uneven_sweeps": 0, "sp2_rows_vs_alone_compared": 0,
-           "sp2_rows_same_sweep_sequence": 0, "sp2_rows_other_sweep_sequence": 0, "finite_T_rows_checked": 0}
+           "sp2_rows_same_sweep_sequence": 0, "sp2_rows_other_sweep_sequence": 0, "finite_T_rows_checked": 0,
+           "unrolled_backward_path_calls": 0}
     viol, margins, cells = [], {}, []
 
     def upd(name, val, tol):
@@ -387,6 +404,15 @@ def run_case(case):
             pass
 
     lw.on_return(sl.scf_forward3, ksa_reader)
+    unrolled = {"n": 0}
+
+    def _bw(frame):
+        if frame.f_locals.get("backward") is True:
+            unrolled["n"] += 1
+
+    for fn_ in ("scf_forward0", "scf_forward1", "scf_forward2"):
+        if hasattr(sl, fn_):
+            lw.on_frames(getattr(sl, fn_), start=_bw)
     sweeps = scfmon.SP2SweepLog()
     if sp2:
         from seqm.seqm_functions import SP2 as sp2mod
@@ -416,6 +442,7 @@ def run_case(case):
     mon["loop_backedges"] = int(sum(lw.max_seen.values()))
     mon["sp2_calls"] = lw.calls.get("SP2", 0)
     mon["sp2_calls_uneven_sweeps"] = sweeps.uneven_calls
+    mon["unrolled_backward_path_calls"] = unrolled["n"]
     mon["ksa_returns"] = ksa_log.get("n", 0)
     mon["backward_fixed_point_calls"] = lw.calls.get("fixed_point_anderson", 0) + lw.calls.get("fixed_point_picard", 0)
     loops_seen = {k: int(v) for k, v in lw.max_seen.items()}
@@ -467,7 +494,7 @@ def run_case(case):
         for b in range(nrow):
             # guard band of 1e-9 relative around each threshold: rounding in the recomputation is never a verdict
             crit = [L["dE"][b] / (scfmon.K_DE * e), L["rms"][b] / (scfmon.K_RMS * e), L["max"][b] / (scfmon.K_MAX * e)]
-            if conv[0] == 2 and np.isfinite(L["diis"][b]):
+            if conv[0] == 2 and elog.saw_diis:      # NaN-safe: a non-finite DIIS error counts as not met
                 crit.append(L["diis"][b] / (scfmon.K_DIIS * e))
             worst = max(c if np.isfinite(c) else np.inf for c in crit)
             if not flag[b]:
@@ -484,9 +511,11 @@ def run_case(case):
         if elog.P_judged is not None and tuple(elog.P_judged.shape) == tuple(mol.dm.shape):
             dj = (mol.dm.detach() - elog.P_judged).abs().reshape(nrow, -1).amax(dim=1).numpy()
             for b in range(nrow):
-                if not flag[b] and np.isfinite(dj[b]):
+                if not flag[b]:
                     mon["returned_vs_judged_rows"] += 1
-                    if upd("returned_vs_judged_iterate", dj[b], scfmon.K_MAX * eps):
+                    # (x A: the out-of-place scf_backward=2 update keeps mixing a row that already converged towards its last
+                    #  diagonalised density, a geometric series of at most alpha/(1-alpha) admissible steps)
+                    if upd("returned_vs_judged_iterate", dj[b], scfmon.K_MAX * eps * A):
                         viol.append({"clause": "returned-density-not-the-judged-iterate", "mech": None,
                                      "detail": dict(detail_common, row=b, max_abs_difference=float(dj[b]), eps=eps)})
         if len(elog.eps_arg_seen) and any(abs(x - eps) > 1e-3 * eps for x in elog.eps_arg_seen):
@@ -501,19 +530,22 @@ def run_case(case):
         # KSA has no get_error call: its last-iteration energy change and density residual D(F[P]) - P are read
         # from the returning frame and judged with the same three-part rule (the residual is the quantity the
         # solver's density test speaks about)
-        kerr = np.asarray(ksa_log.get("err", np.full(nrow, np.nan))).reshape(-1)
-        kmax = np.asarray(ksa_log.get("dDS_max", np.full(nrow, np.nan))).reshape(-1)
-        kfro = np.asarray(ksa_log.get("dDS_fro", np.full(nrow, np.nan))).reshape(-1)
+        if not all(k_ in ksa_log for k_ in ("err", "dDS_max", "dDS_fro")):
+            return {"inconclusive": "KSA frame locals (err, dDS) not found in scf_forward3", "monitors": mon, "cells": cells}
+        kerr = np.asarray(ksa_log["err"], float).reshape(-1)
+        kmax = np.asarray(ksa_log["dDS_max"], float).reshape(-1)
+        kfro = np.asarray(ksa_log["dDS_fro"], float).reshape(-1)
         for b in range(nrow):
             if flag[b]:
                 continue
             mon["flag_rows_checked"] += 1
             size = float(ksa_log["size"][b]) if "size" in ksa_log else 4.0 * sum(1 for z in S[b] if z > 0)
             crit = [kerr[b] / (scfmon.K_DE * eps), kfro[b] / size / (scfmon.K_RMS * eps), kmax[b] / (scfmon.K_MAX * eps)]
-            if not all(np.isfinite(c) for c in crit):
-                continue   # non-finite state: judged by clause (A) "non-finite-result-flagged-converged"
-            if max(crit) > 1.0 + 1e-9:
-                mech = "ksa-stops-on-energy-only" if crit[0] <= 1.0 + 1e-9 else None
+            if not all(c <= 1.0 + 1e-9 for c in crit):     # NaN-safe: a non-finite error never counts as "met"
+                if not all(np.isfinite(c) for c in crit):
+                    mech = "ksa-nan-density-flagged-converged"
+                else:
+                    mech = "ksa-stops-on-energy-only" if crit[0] <= 1.0 + 1e-9 else None
                 viol.append({"clause": "flag-converged-but-threshold-not-met", "mech": mech,
                              "detail": dict(detail_common, row=b, last_dE=float(kerr[b]), residual_max=float(kmax[b]),
                                             residual_rms=float(kfro[b] / size), eps=eps,
@@ -566,8 +598,8 @@ def run_case(case):
                   ("energy", r["energy"], TOL_E + 1e-13 * abs(r["E_functional"]))]
         # first-order response of the aufbau density to the Fock change of one admissible step is dF_ov / gap:
         # the constant holds for gaps >= 1 eV and scales with 1/gap below
-        if r["gap"] is not None and r["gap"] > GAP_MIN:
-            gf = max(1.0, 1.0 / r["gap"])
+        if r["gap"] is not None and not (r["gap"] <= GAP_MIN):      # NaN-safe: a non-finite gap stays eligible (and violates)
+            gf = max(1.0, 1.0 / r["gap"]) if np.isfinite(r["gap"]) else 1.0
             checks.append(("reproduction", r["reproduction"], 1e-10 + K_REPRO * eps_eff * A * su * gf))
         else:
             mon["repro_ineligible_small_gap"] += 1
@@ -582,7 +614,7 @@ def run_case(case):
             mon["r1_rebuilds"] += 1
             allow = 4.0 * r1["nbas"] * scfmon.R1_DF      # |[dF,P]| <= 2 n |dF|max |P|max
             checks.append(("commutator_R1", r1["commutator"], allow + K_COMM * eps_eff * A * su))
-            if r1["gap"] is not None and r1["gap"] > 0.5:
+            if r1["gap"] is not None and not (r1["gap"] <= 0.5):
                 checks.append(("reproduction_R1", r1["reproduction"],
                                allow / r1["gap"] + 1e-10 + K_REPRO * eps_eff * A * su * max(1.0, 1.0 / r1["gap"])))
             obs["max_F_repo_minus_F_R1"] = max(obs.get("max_F_repo_minus_F_R1", 0.0), r1["dF"])   # C06's business; recorded only
@@ -597,7 +629,7 @@ def run_case(case):
         # adaptive mixing ended on a density that lost an even number (>= 2) of electrons (DESIGN-era defect of the
         # adaptive_mix renormalisation): every clause this row breaks carries that mechanism
         dtr = float(r["trace"])
-        lost = int(round(dtr))
+        lost = int(round(dtr)) if np.isfinite(dtr) else -1
         loses_electrons = bool(conv[0] == 1 and lost >= 2 and lost % 2 == 0 and abs(dtr - lost) < 1e-3)
         # Pulay returned (flagged converged) an idempotent density that commutes with its own Fock matrix but is NOT its
         # aufbau density: a charge-transfer / excited determinant (O(1) occupation difference, not an eps-scale residual)
